@@ -7,6 +7,7 @@
      /         b = 0: runtime error; else r is a/b truncated toward zero,
                stated without division (IsTruncDiv)
      %         b = 0: runtime error; else |r| < |b| and b divides a - r (IsMod)
+     < <= > >= == !=   the boolean equals the comparison of the mathematical values
    All limb arithmetic is done by TLC.  A rejected event is reported (@@BAD@@)
    and the run continues, so every rejected event is listed.                *)
 EXTENDS BigInt, TLC, Json, IOUtils
@@ -26,6 +27,13 @@ Accept(e) ==
                      ELSE e.ok /\ IsBigInt(e.r) /\ IsTruncDiv(e.a, e.b, e.r)
     [] e.op = "%" -> IF e.b.sg = 0 THEN ~e.ok
                      ELSE e.ok /\ IsBigInt(e.r) /\ IsMod(e.a, e.b, e.r)
+    \* comparisons of ints of any magnitude are exact too (rb = the boolean the interpreter returned)
+    [] e.op = "<"  -> e.ok /\ e.rb = (Cmp(e.a, e.b) < 0)
+    [] e.op = "<=" -> e.ok /\ e.rb = (Cmp(e.a, e.b) <= 0)
+    [] e.op = ">"  -> e.ok /\ e.rb = (Cmp(e.a, e.b) > 0)
+    [] e.op = ">=" -> e.ok /\ e.rb = (Cmp(e.a, e.b) >= 0)
+    [] e.op = "==" -> e.ok /\ e.rb = (Cmp(e.a, e.b) = 0)
+    [] e.op = "!=" -> e.ok /\ e.rb = (Cmp(e.a, e.b) # 0)
     [] OTHER -> FALSE
 
 Init == l = 1
